@@ -124,6 +124,28 @@ instance decClockAhead : (evs : List Ev) → (last hi : Nat) → Decidable (Cloc
     have := decClockAhead rest (generate now last).2 (max hi (generate now last).2)
     inferInstanceAs (Decidable ((last < hi → hi < now) ∧ _))
 
+/-! ### which command a value was generated for
+
+`State.Create` (internal/state/state.go), `State.Rename` (for missing superiors and for INBOX),
+`user.applyMailboxCreated` and `user.applyUIDValidityBumped` all call `Generate` *inside the
+command that needs the value* and keep the result in a local variable: when the command then
+fails (the name exists or is malformed, the connector refuses, the mailbox-count limit is
+reached, the transaction is rolled back) the value is dropped with the stack frame; nothing
+remembers it for a later command.  A process history is therefore a list of `Generate` calls,
+each tagged with what became of its value. -/
+
+/-- `tags[i] = some name`: the command that made the `i`-th `Generate` call created mailbox
+    `name` under the returned value; `none`: the command failed after the call and the value was
+    dropped.  (A failing `Generate` fails its command whatever the tag.) -/
+def usedFor : List (Option String) → List Res → List (String × Nat)
+  | some n :: ts, .ok v :: rs => (n, v) :: usedFor ts rs
+  | _ :: ts, _ :: rs => usedFor ts rs
+  | _, _ => []
+
+/-- the successive UIDVALIDITY values mailbox name `name` received, oldest first -/
+def valuesOf (name : String) (l : List (String × Nat)) : List Nat :=
+  (l.filter (fun p => p.1 == name)).map (·.2)
+
 /-- `lst.Pairwise (· < ·)` as a Bool, for `decide` on witnesses and for the judge -/
 def strictlyIncreasing : List Nat → Bool
   | [] => true
